@@ -191,7 +191,7 @@ def _plain_formula(raw: str) -> Optional[Dict[str, int]]:
             return None
         pos = m.end()
         _add(comp, m.group(1), int(m.group(2)) if m.group(2) else 1)
-    return comp if pos == len(raw) else None
+    return {k: v for k, v in comp.items() if v != 0} if pos == len(raw) else None
 
 
 @lru_cache(maxsize=None)
